@@ -82,6 +82,10 @@ def check(ctx):
         o.rule = o.rule.replace("C05.a KIND-S2D", "C11.b LABELS-NOT-POSITIONS (C05.a)")
     ctx.guard("C11.d FLOAT-KERNEL", "accumulators", lambda: check_float(ctx))
     ctx.guard("C11.e AS-2D", "as_2d_array", lambda: check_as_2d(ctx))
+    # results are a function of the VALUES handed to this call: no cache keyed on the index / container of an earlier one
+    from .c10 import shared_no_stale
+
+    shared_no_stale(ctx, "C11.c VALUES-ONLY", [("skchange.change_detectors", "PELT"), ("skchange.change_detectors", "SeededBinarySegmentation"), ("skchange.change_detectors", "MovingWindow"), ("skchange.anomaly_detectors", "CircularBinarySegmentation"), ("skchange.anomaly_detectors", "CAPA"), ("skchange.anomaly_detectors", "MVCAPA")])
     ctx.expect_min("C11.a NORMALISE-DOMINATES-USE", sum(1 for o in ctx.obs if "NORMALISE" in o.rule), 30)
 
 
